@@ -136,7 +136,10 @@ def core_branches(cfg, m):
     if any(scc[e] and ub[e] > 1 for e in ub):
         t.append("scc_edge_cap>1")
     if any(scc[e] and ub[e] != int(ub[e]) for e in ub):
-        t.append("scc_edge_cap_fractional")
+        t.append("scc_edge_cap_fractional")          # cannot occur since fix fcfd0b0 (the caps of SCC edges are floored)
+    flow = {(u, v): frac(q) for u, v, q in cfg.get("flow", [])}
+    if any(scc[e] and e in flow and flow[e].denominator != 1 for e in ub):
+        t.append("scc_edge_flow_fractional(cap_floored)")
     if any(scc[e] and e[0] == e[1] for e in ub):
         t.append("self_loop_is_scc_edge")
     if any(not scc[e] for e in ub if e not in m.G.source_sink_edges):
